@@ -109,3 +109,34 @@ Theorem C05_log_nadded : forall depth bucket nr umax powneg castc (s : lsk) (k :
   ln_added (lcls_add depth bucket nr umax powneg castc s k v) = ln_added s + v.
 Proof. exact CmsLogProofs.C05_log_nadded. Qed.
 Print Assumptions C05_log_nadded.
+
+(* ---------------- source tie (linear) ----------------
+   _add_linear (countmin.py l.331-345) as regenerated from the source AST on this run (generated/KernelsCms.v):
+   gen_add_linear_pre is the straight-line part after the query, (min_count, value, uint_maxval, n_added_records[0]) ->
+   None for the early return, else Some (value, new_count, n_added_records[0]); gen_add_linear_cell is the body of the
+   update loop, (cms[row, buckets[row]], new_count) -> the cell afterwards.  KernelTieCmsAdd.add_assembled is the state
+   built from these two and the (tied, C01_query_source_tie) query: unchanged on None, else every cell
+   (row < depth, column = the row's bucket) replaced by gen_add_linear_cell and n_added by the third component *)
+From Sketchnu Require KernelsCms KernelTieCmsAdd.
+Theorem C05_add_source_tie :
+  (forall mc v na : Z, 0 <= mc <= CmsLinear.cap -> 0 <= v <= CmsLinear.cap -> 0 <= na -> na + v < 2^64 ->
+     KernelsCms.gen_add_linear_pre mc v CmsLinear.cap na =
+     if mc =? CmsLinear.cap then None
+     else let v' := Z.min v (CmsLinear.cap - mc) in Some (v', mc + v', na + v')) /\
+  (forall old nc : Z, 0 <= nc <= CmsLinear.cap ->
+     KernelsCms.gen_add_linear_cell old nc = if old <? nc then nc else old) /\
+  (forall depth bucket (s : CmsLinear.sk) (k : key) (v : Z),
+     CmsLinearProofs.Rng s -> 0 <= v <= CmsLinear.cap -> 0 <= CmsLinear.n_added s -> CmsLinear.n_added s + v < 2^64 ->
+     CmsLinearProofs.sk_eq (CmsLinear.add_linear depth bucket s k v) (KernelTieCmsAdd.add_assembled depth bucket s k v)).
+Proof. exact KernelTieCmsAdd.tie_add. Qed.
+Print Assumptions C05_add_source_tie.
+
+Example C05_add_source_tie_nonvacuous :
+  KernelsCms.gen_add_linear_pre 3 5 CmsLinear.cap 10 = Some (5, 8, 15) /\
+  KernelsCms.gen_add_linear_pre (CmsLinear.cap - 2) 5 CmsLinear.cap 10 = Some (2, CmsLinear.cap, 12) /\
+  KernelsCms.gen_add_linear_pre CmsLinear.cap 5 CmsLinear.cap 10 = None /\
+  map (fun on => KernelsCms.gen_add_linear_cell (fst on) (snd on)) [(3, 8); (8, 8); (9, 8)] = [8; 8; 9] /\
+  let s := KernelTieCmsAdd.add_assembled 2 (fun r _ => r) CmsLinear.empty [97] 4 in
+  (CmsLinear.cms s 0%nat 0%nat, CmsLinear.cms s 1%nat 1%nat, CmsLinear.cms s 1%nat 0%nat, CmsLinear.cms s 2%nat 2%nat, CmsLinear.n_added s)
+  = (4, 4, 0, 0, 4).
+Proof. vm_compute. repeat split; reflexivity. Qed.
